@@ -199,10 +199,19 @@ func c05Run(run *ev.Run) {
 		{Store: "memory", Forward: true, Logout: true, RealGen: true},
 		{Store: "redis", Forward: true, Logout: true, RealGen: true, CookiePrefix: "my-app_1.x"},
 		{Store: "memory", Logout: true, RealGen: true, CookiePrefix: "a"},
+		{Store: "memory", Forward: true, Logout: true, RealGen: true, CookiePrefix: "odd"},
 	}
 	for i, spec := range specs {
-		m := c05Opts(run.Tier, spec).model(c05Monitor(run, spec))
+		o5 := c05Opts(run.Tier, spec)
+		m := o5.model(c05Monitor(run, spec))
 		m.MaxDepth = depth
+		if i == len(specs)-1 {
+			// the session cookie inside sloppy Cookie headers (trailing ';', pair without value, junk, a comma-smuggled
+			// second pair): two sessions, two levels less
+			o5.OddCookies, o5.MaxSessions = true, 2
+			m = o5.model(c05Monitor(run, spec))
+			m.MaxDepth = depth - 2
+		}
 		if run.Tier == "thorough" {
 			m.CheckMerges = -1 // depth 7 fills the time budget; the merge check runs in the quick tier
 		}
